@@ -1,5 +1,6 @@
-// gategen rewrites Go source files so that every synchronisation operation is preceded by
-// zzgate.At(site) and followed by zzgate.After().  Output is used only through -overlay.
+// gate instrumenter: rewrites Go source so that every synchronisation operation is preceded by
+// zzgate.At(site) and followed by zzgate.After().  The output is used only through
+// `go test -overlay`; /repo is never written.
 package main
 
 import (
@@ -9,15 +10,13 @@ import (
 	"go/format"
 	"go/parser"
 	"go/token"
-	"os"
-	"path/filepath"
 	"strings"
 )
 
 const gatePkg = "github.com/B1NARY-GR0UP/originium/internal/zzgate"
 
 var fset = token.NewFileSet()
-var rel string
+var rel string // NOTE: the instrumenter is used sequentially
 
 func site(p token.Pos) string {
 	pos := fset.Position(p)
@@ -166,54 +165,39 @@ func (rewriter) Visit(n ast.Node) ast.Visitor {
 	return rewriter{}
 }
 
-func main() {
-	root, outDir := os.Args[1], os.Args[2]
-	for _, r := range os.Args[3:] {
-		rel = r
-		src := filepath.Join(root, r)
-		if _, err := os.Stat(src); err != nil {
-			src = r // absolute path given with rel name after '='
+// instrumentFile returns the gated version of src; relName is the path used in site labels
+// (relative to the module root, as the engine prints them).
+func instrumentFile(src []byte, relName string) ([]byte, error) {
+	rel = relName
+	f, err := parser.ParseFile(fset, relName, src, parser.ParseComments)
+	if err != nil {
+		return nil, err
+	}
+	var nodes []ast.Node
+	ast.Inspect(f, func(n ast.Node) bool {
+		switch n.(type) {
+		case *ast.BlockStmt, *ast.CaseClause, *ast.CommClause:
+			nodes = append(nodes, n)
 		}
-		if i := strings.Index(r, "="); i >= 0 {
-			rel, src = r[:i], r[i+1:]
-		}
-		f, err := parser.ParseFile(fset, src, nil, parser.ParseComments)
-		if err != nil {
-			panic(err)
-		}
-		// positions must be computed on the original file: collect first, then rewrite (sites are
-		// rendered eagerly by site(), which uses original positions of existing nodes)
-		var nodes []ast.Node
-		ast.Inspect(f, func(n ast.Node) bool {
-			switch n.(type) {
-			case *ast.BlockStmt, *ast.CaseClause, *ast.CommClause:
-				nodes = append(nodes, n)
-			}
-			return true
-		})
-		for _, n := range nodes {
-			switch b := n.(type) {
-			case *ast.BlockStmt:
-				b.List = rewriteList(b.List)
-			case *ast.CaseClause:
-				b.Body = rewriteList(b.Body)
-			case *ast.CommClause:
-				b.Body = rewriteList(b.Body)
-			}
-		}
-		// add import
-		imp := &ast.ImportSpec{Name: ast.NewIdent("zzgate"), Path: &ast.BasicLit{Kind: token.STRING, Value: fmt.Sprintf("%q", gatePkg)}}
-		decl := &ast.GenDecl{Tok: token.IMPORT, Specs: []ast.Spec{imp}}
-		f.Decls = append([]ast.Decl{decl}, f.Decls...)
-		f.Comments = nil
-		var buf bytes.Buffer
-		if err := format.Node(&buf, token.NewFileSet(), f); err != nil {
-			panic(err)
-		}
-		out := filepath.Join(outDir, rel)
-		os.MkdirAll(filepath.Dir(out), 0755)
-		if err := os.WriteFile(out, buf.Bytes(), 0644); err != nil {
-			panic(err)
+		return true
+	})
+	for _, n := range nodes {
+		switch b := n.(type) {
+		case *ast.BlockStmt:
+			b.List = rewriteList(b.List)
+		case *ast.CaseClause:
+			b.Body = rewriteList(b.Body)
+		case *ast.CommClause:
+			b.Body = rewriteList(b.Body)
 		}
 	}
+	imp := &ast.ImportSpec{Name: ast.NewIdent("zzgate"), Path: &ast.BasicLit{Kind: token.STRING, Value: fmt.Sprintf("%q", gatePkg)}}
+	decl := &ast.GenDecl{Tok: token.IMPORT, Specs: []ast.Spec{imp}}
+	f.Decls = append([]ast.Decl{decl}, f.Decls...)
+	f.Comments = nil
+	var buf bytes.Buffer
+	if err := format.Node(&buf, token.NewFileSet(), f); err != nil {
+		return nil, err
+	}
+	return buf.Bytes(), nil
 }
